@@ -116,7 +116,7 @@ pub fn drive_c15(args: &[String]) {
 }
 
 fn simplify_event(input: &PartialDSym, ptc: bool, same_group: bool, nvariants: usize, rng: &mut StdRng, src: &str) -> Value {
-    let mut e = json!({"ev": "simplify", "src": src, "in": dsym_json(input), "ptc": ptc, "same_group": same_group, "corpus": src == "ptc of corpus"});
+    let mut e = json!({"ev": "simplify", "src": src, "in": dsym_json(input), "ptc": ptc, "same_group": same_group, "corpus": src.starts_with("ptc of corpus")});
     pending(&e);
     let run = |t: &PartialDSym| catch(|| {
         let o = simplify(t);
@@ -170,6 +170,16 @@ pub fn drive_c16(args: &[String]) {
     for s in corpus3d().into_iter().flat_map(|s| { let d = dual(&s); [s, d] }) {
         REPEATS.store(nrep, std::sync::atomic::Ordering::Relaxed);
         if let Ok(Some(c)) = catch(|| pseudo_toroidal_cover(&s)) { sink.emit(simplify_event(&c, true, true, nvar, &mut rng, "ptc of corpus")); }
+    }
+    // the prism family of Prism.tla (euclidean by construction): their pseudo-toroidal covers are 3-tori as well
+    if let Some(p) = arg(args, "--prisms") {
+        let mut fam = prism_family(&p, 2);
+        fam.shuffle(&mut rng);
+        fam.truncate(arg_usize(args, "--prism-cap", 40));
+        REPEATS.store(1, std::sync::atomic::Ordering::Relaxed);
+        for (_, s) in fam {
+            if let Ok(Some(c)) = catch(|| pseudo_toroidal_cover(&s)) { if c.size() <= 400 { sink.emit(simplify_event(&c, true, true, 2, &mut rng, "ptc of corpus (prism family)")); } }
+        }
     }
     if let Some(path) = arg(args, "--regress") {
         for ln in std::fs::read_to_string(&path).unwrap().lines().filter(|l| !l.starts_with('#') && !l.trim().is_empty()) {
